@@ -50,6 +50,12 @@ impl Vp8lChunk {
     }
 
     pub fn sanitize_image_data<R: Read>(&self, input: R) -> StdResult<(), Error> {
+        #[cfg(signalapp_mp4san_verif)]
+        {
+            let mut reader = BitBufReader::<_, LE>::with_capacity(input, crate::verif_bitbuf_capacity());
+            let _image = LosslessImage::read(&mut reader, self.width.into(), self.height.into())?;
+            return Ok(());
+        }
         let mut reader = BitBufReader::<_, LE>::with_capacity(input, 4096);
         let _image = LosslessImage::read(&mut reader, self.width.into(), self.height.into())?;
         Ok(())
